@@ -295,6 +295,34 @@ def run_case(case, ctx):
             except Exception as exc:
                 ctx.reject('call_raised', observed=repr(exc), detail=dict(integer_typed_sequence=True, given_as=form))
                 return
+    if case['seed'] % 4 == 3:
+        # complex-valued sequences with a *real* ratio, 1-d and as a single column: the modelled terms are removed from real and
+        # imaginary part alike, and the two layouts give the same numbers
+        crng = np.random.default_rng(case['seed'] + 9)
+        rho_c, sp_c, od_c = float(crng.choice([1.6, 2.0, 3.0, 4.0])), int(crng.integers(1, 3)), int(crng.integers(1, 4))
+        T_c, N_c = int(crng.integers(1, 4)), int(crng.integers(4, 10))
+        L_c = complex(crng.normal(), crng.normal()) * 10.0 ** crng.uniform(-2, 2)
+        amps_c = [complex(crng.normal(), crng.normal()) for _ in range(T_c)]
+        hs_c = np.array([0.8 * rho_c ** (-k) for k in range(N_c)])
+        vals_c = np.array([L_c + sum(a_ * h_ ** (od_c + sp_c * j) for j, a_ in enumerate(amps_c)) for h_ in hs_c])
+        try:
+            rc = Richardson(step_ratio=rho_c, step=sp_c, order=od_c, num_terms=T_c)
+            o1, e1, _ = rc(vals_c.copy(), hs_c.copy())
+            o2, e2, _ = rc(vals_c.reshape(-1, 1).copy(), hs_c.reshape(-1, 1).copy())
+            ctx.count('complex_sequences_with_real_ratio_asserted')
+            o1, o2 = np.asarray(o1), np.asarray(o2)
+            wc = np.asarray(rc.rule(N_c))
+            tol_c = 1e3 * EPS * float(np.sum(np.abs(wc))) * (abs(L_c) + sum(abs(a_) for a_ in amps_c))
+            if o1.shape != (N_c - min(T_c, N_c - 1),) or not np.all(np.abs(o1 - L_c) <= tol_c):
+                ctx.reject('limit_not_recovered', observed=o1[:3], expected=L_c,
+                           detail=dict(complex_sequence_real_ratio=True, layout='1-d', ratio=rho_c, order=od_c, spacing=sp_c, num_terms=T_c, tol=tol_c))
+                return
+            if o1.tobytes() != np.ascontiguousarray(o2[:, 0]).tobytes():
+                ctx.reject('columns_not_independent', observed=o1[:3], expected=o2[:3, 0], detail=dict(complex_sequence='1-d against one column'))
+                return
+        except Exception as exc:
+            ctx.reject('call_raised', observed=repr(exc), detail=dict(complex_sequence_real_ratio=True))
+            return
     if well and used >= 1 and nmodel >= 1:
         ctx.nontrivial((cplx, spacing, order, used, N))
     if len(ctx.samples) < 2:
